@@ -188,6 +188,9 @@ func alStepsToInts(s []align.Step) []int {
 func alignCall(op string, a, b []byte, m, snap align.SubstitutionMatrix, line, shift int) alEvent {
 	ev := alEvent{Op: op, M: line, A: ints(a), B: ints(b), Steps: []int{}, Wit: []int{}}
 	ac, bc := append([]byte{}, a...), append([]byte{}, b...)
+	if len(a) > 0 && bytes.Equal(a, b) && line%2 == 0 { // a sequence against itself: one slice passed twice
+		bc = ac
+	}
 	var score float64
 	ev.Panic, ev.PanicMsg = catch(func() {
 		if op == "global" {
